@@ -15,15 +15,22 @@ pred Wd(vt *Model) = len(vt.activeScreen[0])
 
 pred GridOK(g [][]cell, h int, w int) = len(g) == h && (forall r in 0..h: len(g[r]) == w)
 
-pred Inv(vt *Model) =
+-- InvBase: everything except the upper bound of the cursor column (CHT exceeds it inside its loop and clamps after)
+pred Inv(vt *Model) = InvBase(vt) && vt.cursor.col < Wd(vt)
+
+pred InvBase(vt *Model) =
      H(vt) >= 1 && Wd(vt) >= 1
   && GridOK(vt.activeScreen, H(vt), Wd(vt))
   && GridOK(vt.primaryScreen, H(vt), Wd(vt))
   && GridOK(vt.altScreen, H(vt), Wd(vt))
   && 0 <= vt.cursor.row && vt.cursor.row < H(vt)
-  && 0 <= vt.cursor.col && vt.cursor.col < Wd(vt)
+  && 0 <= vt.cursor.col
   && 0 <= vt.margin.top && vt.margin.top <= vt.margin.bottom && vt.margin.bottom < H(vt)
   && vt.margin.left == 0 && vt.margin.right == Wd(vt) - 1
+  && ref(vt.charsets.designations) != 0
+  && (forall t in 0..len(vt.tabStop): vt.tabStop[t] >= 0)
+  && 0 <= vt.primaryState.cursor.row && 0 <= vt.primaryState.cursor.col
+  && 0 <= vt.altState.cursor.row && 0 <= vt.altState.cursor.col
 
 -- parameters as the parser delivers them (C02): inner lists non-empty, values non-negative
 pred ParamsWF(pm [][]int) =
@@ -82,8 +89,12 @@ func (vt *Model) decrc()
 func (vt *Model) ris()
   requires inv: Inv(vt)
   ensures C05_inv: Inv(vt)
-  loop 1 invariant grid: 0 <= i && i <= h && len(vt.altScreen) == h && len(vt.primaryScreen) == h
-                      && (forall r in 0..i: len(vt.altScreen[r]) == w && len(vt.primaryScreen[r]) == w)
+  loop 1 invariant grid: -1 <= rangeindex && len(vt.altScreen) == h && len(vt.primaryScreen) == h && h >= 1 && w >= 1
+                      && h == old(H(vt)) && w == old(Wd(vt))
+                      && (forall r in 0..rangeindex+1: len(vt.altScreen[r]) == w && len(vt.primaryScreen[r]) == w)
+                      && (forall t in 0..len(vt.tabStop): vt.tabStop[t] >= 0)
+                      && 0 <= vt.primaryState.cursor.row && 0 <= vt.primaryState.cursor.col
+                      && 0 <= vt.altState.cursor.row && 0 <= vt.altState.cursor.col
 
 func (vt *Model) scrollUp(n int)
   requires inv: Inv(vt)
@@ -99,7 +110,7 @@ func (vt *Model) scrollDown(n int)
 
 func (vt *Model) print(seq ansi.Print)
   requires inv: Inv(vt)
-  requires w: 0 <= seq.Width && seq.Width <= 2
+  requires w: 0 <= seq.Width
   ensures C05_inv: Inv(vt)
   loop * invariant inv: Inv(vt)
 
@@ -162,7 +173,7 @@ func (vt *Model) cht(ps int)
   requires inv: Inv(vt)
   requires ps: ps >= 0
   ensures C05_inv: Inv(vt)
-  loop * invariant inv: Inv(vt)
+  loop * invariant inv: InvBase(vt)
 
 func (vt *Model) ed(ps int)
   requires inv: Inv(vt)
@@ -198,7 +209,7 @@ func (vt *Model) ech(ps int)
   requires inv: Inv(vt)
   requires ps: ps >= 0
   ensures C05_inv: Inv(vt)
-  loop * invariant inv: Inv(vt)
+  loop * invariant inv: Inv(vt) && 0 <= i && vt.cursor.col + i <= Wd(vt)
 
 func (vt *Model) cbt(ps int)
   requires inv: Inv(vt)
@@ -209,7 +220,7 @@ func (vt *Model) cbt(ps int)
 func (vt *Model) tbc(ps int)
   requires inv: Inv(vt)
   ensures C05_inv: Inv(vt)
-  loop * invariant inv: Inv(vt)
+  loop * invariant inv: Inv(vt) && (forall t in 0..len(tabs): tabs[t] >= 0)
 
 func (vt *Model) vpa(ps int)
   requires inv: Inv(vt)
@@ -235,7 +246,7 @@ func (vt *Model) rep(ps int)
   requires inv: Inv(vt)
   requires ps: ps >= 0
   ensures C05_inv: Inv(vt)
-  loop * invariant inv: Inv(vt)
+  loop * invariant inv: Inv(vt) && 0 <= i && col == vt.cursor.col && col + i <= vt.margin.right
 
 func (vt *Model) decstbm(pm [][]int)
   requires inv: Inv(vt)
@@ -274,16 +285,57 @@ func (vt *Model) sgr(params [][]int)
   requires inv: Inv(vt)
   requires pm: ParamsWF(params)
   ensures C05_inv: Inv(vt)
-  loop * invariant inv: Inv(vt) && ParamsWF(params)
+  loop * invariant inv: Inv(vt) && ParamsWF(params) && 0 <= i
 
 func (vt *Model) osc(data string)
   requires inv: Inv(vt)
   ensures C05_inv: Inv(vt)
 
+-- ------------------------------------------------------------------ entry point of the PTY goroutine
+
+func (vt *Model) update(seq ansi.Sequence)
+  requires inv: Inv(vt)
+  requires csi: typeis(seq, "ansi.CSI") ==> ParamsWF(unbox(seq, "ansi.CSI").Parameters)
+  requires prt: typeis(seq, "ansi.Print") ==> unbox(seq, "ansi.Print").Width >= 0
+  requires par: vt.parser != nil && vt.timer != nil
+  ensures C05_inv: Inv(vt)
+  loop * invariant inv: Inv(vt)
+
+-- ------------------------------------------------------------------ drawing into the host window (C05, C11)
+
+func (vt *Model) Resize(w int, h int)
+  requires size: w >= 1 && h >= 1
+  requires inv: Inv(vt)
+  ensures C05_inv: Inv(vt)
+  ensures C05_size: H(vt) == h && Wd(vt) == w
+
+func (vt *Model) Draw(win vaxis.Window)
+  requires inv: Inv(vt)
+  requires win: WinOK(win) && win.Width >= 1 && win.Height >= 1
+  requires tm: vt.timer != nil
+  ensures C05_inv: Inv(vt)
+  ensures C05_contain: OutsideKept(win)
+  loop 1 invariant keep: Inv(vt) && OutsideKept(win) && WinOK(win)
+  loop 2 invariant keep: Inv(vt) && OutsideKept(win) && WinOK(win) && 0 <= row && row < H(vt)
+
 -- ------------------------------------------------------------------ sizes
+
+func (vt *Model) setDefaultTabStops()
+  ensures C05_tabs: forall t in 0..len(vt.tabStop): vt.tabStop[t] >= 0
+  loop 1 invariant tabs: i >= 8 && (forall t in 0..len(vt.tabStop): vt.tabStop[t] >= 0)
 
 func (vt *Model) resize(w int, h int)
   requires size: w >= 1 && h >= 1
+  requires pre: len(vt.primaryScreen) == 0 || Inv(vt)
+  requires maps: vt.margin.left == 0 && ref(vt.charsets.designations) != 0 && (forall t in 0..len(vt.tabStop): vt.tabStop[t] >= 0)
+              && 0 <= vt.primaryState.cursor.row && 0 <= vt.primaryState.cursor.col
+              && 0 <= vt.altState.cursor.row && 0 <= vt.altState.cursor.col
+  loop 1 invariant grid: -1 <= rangeindex && len(vt.altScreen) == h && len(vt.primaryScreen) == h
+                      && (forall r in 0..rangeindex+1: len(vt.altScreen[r]) == w && len(vt.primaryScreen[r]) == w)
+                      && (forall t in 0..len(vt.tabStop): vt.tabStop[t] >= 0)
+                      && (len(primary) > 0 ==> GridOK(primary, old(H(vt)), old(Wd(vt))))
+  loop 2 invariant inv: Inv(vt) && H(vt) == h && Wd(vt) == w && (len(primary) > 0 ==> GridOK(primary, old(H(vt)), old(Wd(vt))))
+  loop 3 invariant inv: Inv(vt) && H(vt) == h && Wd(vt) == w && (len(primary) > 0 ==> GridOK(primary, old(H(vt)), old(Wd(vt))))
   ensures C05_inv: Inv(vt)
   ensures C05_size: H(vt) == h && Wd(vt) == w
 @*/
